@@ -1,4 +1,5 @@
 import Goyang.Model.File
+import Goyang.Spec.Date
 /-
 C13 (b), independent reading of the file chooser.
 
@@ -18,31 +19,9 @@ defined afresh.  Core Lean only.
 -/
 namespace Goyang.Spec.File
 open Goyang.Model.File (Name FsNode Path Entry lookup)
+open Goyang.Spec (Date parseDate)
 
 abbrev Listing := List (Name × FsNode)
-
-structure Date where
-  y : Nat
-  m : Nat
-  d : Nat
-  deriving DecidableEq, Repr
-
-def isDigit (c : Char) : Bool := '0' ≤ c ∧ c ≤ '9'
-
-def digitsVal (ds : List Char) : Nat := ds.foldl (fun n c => 10 * n + (c.toNat - 48)) 0
-
-/-- `YYYY-MM-DD`. -/
-def parseDate : List Char → Option Date
-  | [y1, y2, y3, y4, '-', m1, m2, '-', d1, d2] =>
-    if [y1, y2, y3, y4, m1, m2, d1, d2].all isDigit then
-      some ⟨digitsVal [y1, y2, y3, y4], digitsVal [m1, m2], digitsVal [d1, d2]⟩
-    else none
-  | _ => none
-
-def Date.lt (a b : Date) : Bool :=
-  a.y < b.y || (a.y == b.y && (a.m < b.m || (a.m == b.m && a.d < b.d)))
-
-def Date.le (a b : Date) : Bool := a.lt b || a == b
 
 /-- The date of `fn` when `fn` is `m@YYYY-MM-DD.yang`. -/
 def datedOf (m fn : Name) : Option Date :=
